@@ -119,8 +119,11 @@ PROPS = {
                  "Exhaustive stratum: one track of N = 0..6 (thorough 0..7) samples x every composition of N into chunks x every subset of optional "
                  "stsc run breaks, crossed with stco/co64, fixed/varying/zero sizes, ctts absent/v0/v1, stss absent/present, split or maximal "
                  "stts/ctts runs (6 dimension points per composition quick, all 48 thorough). Random stratum: 1-3 tracks with interleaved chunks, up to "
-                 "5000 samples, gaps, moov before/after mdat, 64-bit and size-0 mdat. For every id in 0..=N+2 (+ far beyond) sample_count, "
-                 "sample_offset and read_sample (bytes compared, start, delta, offset, sync) are compared with the model. distinct = distinct per-track "
+                 "5000 samples, gaps, moov before/after mdat, 64-bit and size-0 mdat; one movie in four carries the 64-bit size header on a pseudo-random "
+                 "fifth of the boxes below moov (table boxes included). Virtual-large stratum: a real movie header followed by a generated > 4 GiB tail, one "
+                 "chunk whose contents cross 2^32 (constant size and size table, chunk offset below / above 2^32). For every id in 0..=N+2 (+ far beyond) "
+                 "sample_count, sample_offset and read_sample (bytes compared, start, delta, offset, sync) are compared with the model - in increasing order, "
+                 "then again on the same reader backwards per track and in a shuffled order interleaving the tracks. distinct = distinct per-track "
                  "layout shape (sample-count bucket, chunk composition for N<=6, #stsc runs, offset form, size mode, ctts/stss shape, #zero sizes); "
                  "non-trivial = track with >= 2 samples."),
         "assumptions": [
@@ -172,13 +175,13 @@ PROPS = {
         "min_evals": {"quick": 700, "thorough": 7000},
         "rule": ("reference-encoded movies with moov/udta/meta/ilst: every subset of the four items x handler mdir / other x placement (udta/meta, moov/meta, "
                  "udta without meta, no udta), payload lengths 0/1/255/65536/random, year as decimal text or 4-byte binary, multi-byte UTF-8 text, "
-                 "0-3 unrelated items (arbitrary data types and contents) before/between/after, meta with and without the version/flags word, hdlr first or "
+                 "0-3 unrelated items (arbitrary data types and contents, also header-only 8-byte items and raw non-`data` content; one such item placed first / in the middle / last for every tag subset) before/between/after, year text that is not a decimal number, meta with and without the version/flags word, hdlr first or "
                  "last, plus movies without user data. Accessor results are compared with the encoded values. distinct = (subset, handler, placement, header "
                  "form, hdlr position, #extra items, year encoding)."),
         "assumptions": [
             "data types of the four known items are those of the library's table (0, 1, 13, 21); unrelated items may carry any type",
             "a QuickTime-style meta (no version/flags word) is generated with hdlr as first child only (the two forms cannot be told apart otherwise)",
-            "duplicate items and non-numeric year text are not generated (the statement does not define their result)",
+            "duplicate items are not generated (the statement does not define their result); year text that is not a decimal number (empty, letters, dates, sign, overflow) is generated and absence is expected",
         ],
     },
 
@@ -221,17 +224,26 @@ PROPS = {
         "level": "exploration",
         "profiles": ["chk", "rel"],
         "death_is_violation": True,
+        # after the primary profiles: the quick-sized workload rebuilt with AddressSanitizer, and
+        # the `sanit` workload under the Miri interpreter (16 shards x miri_cases hostile inputs)
+        "supplementary": {"thorough": ["asan", "miri"]},
+        "miri_cases": 100,
         "min_evals": {"quick": 20000, "thorough": 300000},
         "rule": ("seed corpus of ~50 valid files (the canned samples, reference-encoded movies of every codec/layout with metadata, edit lists, emsg, "
                  "fragmented streams and init+segment pairs, muxer outputs); mutators: single substitution of a boundary-value set (0,1,...,2^W-1, n, "
                  "remaining, box size, +-1/8/16, count that just fits) into every field of the reference encoder's field map (sizes, largesizes, fourccs, "
-                 "versions, flags, counts, lengths, offsets, values; all of them in thorough, a 700-per-seed sample in quick), pairwise substitution of "
-                 "near-by fields, byte-level havoc (flips, runs, deletes, duplicates, splices of two seeds, truncation, fourcc swaps) and 14 amplifier "
-                 "families. Every input is opened (read_header, and read_fragment_header against three opened initialisation segments) and, when it "
+                 "versions, flags, counts, lengths, offsets, values; all of them in thorough; in quick a 2000-per-seed sample plus the extremes 0 / max-1 / max "
+                 "of EVERY field), directed size+count pairs (every count field together with the sizes of its 1..3 innermost enclosing boxes raised to "
+                 "~2^24 / 2^31 / 2^32), pairwise substitution of near-by fields, byte-level havoc (flips, runs, deletes, duplicates, splices of two seeds, "
+                 "truncation, fourcc swaps), 16 amplifier families, and 16 000 (thorough 200 000) freshly generated plain and fragmented movies, each as a "
+                 "file, as media segment against its own initialisation segment, and with one havoc variant. Every input is opened (read_header, and read_fragment_header against three opened initialisation segments) and, when it "
                  "opens, every accessor is called: movie and track accessors, metadata, to_json/summary/box_size of every parsed box, sample_count, "
                  "sample_offset and read_sample for ids 0..16, count-1..count+2, 2^31, 2^32-1 and track ids 0 / present / max+1. A panic hook records "
                  "sites; process deaths are attributed through the journal. Both build profiles. distinct_nontrivial = distinct (field path class, field "
-                 "kind, value class) triples substituted plus amplifier (family, size step) pairs."),
+                 "kind, value class) triples substituted plus amplifier (family, size step) pairs. Thorough tier, supplementary (coverage.supplementary): the "
+                 "quick-sized workload once more in a build with AddressSanitizer, and a targeted workload (every emsg shape = the crate's only unsafe, "
+                 "mux->demux round trips, 1600 hostile reader inputs with every accessor) under the Miri interpreter; a report of either tool is a violation, "
+                 "a tool that cannot be run is a note."),
         "assumptions": [
             "inputs are handed to the reader with their true length",
             "stack overflow / allocation aborts are observed as worker death and attributed to the journalled open case",
@@ -245,10 +257,13 @@ PROPS = {
         "rule": ("the C06 corpus and mutators under an instrumented stream: per call (open, open-as-fragment, each sample read / accessor group) at "
                  "most 4000 + 16 n stream operations and 1 MiB + 16 n transferred bytes (n = input length; the stream returns an error when exceeded, "
                  "so a reader that loops without consuming input terminates with evidence) and at most 50 ms + 2 us x n thread CPU time, counted only "
-                 "if the minimum over three runs exceeds it; 14 amplifier families (zero-size child in moov/trak/stbl/udta/moof, sub-header-size boxes "
+                 "if the minimum over three runs exceeds it; 16 amplifier families (zero-size child in moov/trak/stbl/udta/moof, sub-header-size boxes "
                  "at top level and inside moov, many traks whose parameter-set lengths reach the end of the file, counts of 2^32-1 without payload, "
-                 "runs declaring 2^32-1 samples without fields, nested overrun chains, many rewinding meta boxes, many emsg) are emitted at sizes "
-                 "n, 2n, 4n, 8n and operations / bytes / CPU must not grow faster than 1.6 x the size ratio (doubling test). distinct_nontrivial as C06."),
+                 "runs declaring 2^32-1 samples without fields, nested overrun chains, many rewinding meta boxes, many emsg, many sample entries whose "
+                 "descriptor chain overruns into the following ones, many track fragments with long runs) are emitted at sizes n, 2n, 4n, 8n; between "
+                 "consecutive sizes operations and bytes must not grow faster than 1.6 x the size ratio (one step suffices, the counters are deterministic) "
+                 "and CPU time (minimum of two sweeps, above a 20 ms floor) must not do so on two consecutive steps (doubling test). Strata and "
+                 "distinct_nontrivial as C06."),
         "assumptions": [
             "liveness is restated as bounded progress in logical steps (stream operations, bytes, CPU time) - DESIGN 1 and 5 (C07)",
             "budget constants are at least 3x the worst ratio of any well-formed or honestly malformed input (observed maxima are printed in the evidence)",
@@ -263,7 +278,8 @@ PROPS = {
         "rule": ("the C06 corpus and mutators under a counting global allocator: per call (open, open-as-fragment, every sample read and accessor group) "
                  "the peak of live heap bytes above the level at call entry must stay <= 64 KiB + 64 n and the largest single request <= 64 KiB + 16 n "
                  "(n = input length); requests above 1 GiB are recorded and refused, the resulting abort is attributed to the journalled case. "
-                 "distinct_nontrivial as C06; observed maxima of peak/n and request/n are reported."),
+                 "Strata (including the directed size+count pairs, which aim at exactly the guards this property rests on) and distinct_nontrivial as C06; "
+                 "observed maxima of peak/n and request/n are reported."),
         "assumptions": [
             "the bound constants leave room for track cloning and Vec growth (observed maxima on valid files are < 8 n)",
             "measured in the release profile (allocation behaviour does not depend on overflow checks)",
@@ -276,14 +292,16 @@ PROPS = {
         "death_is_violation": True,
         "exhaustive": {"quick": False, "thorough": True},
         "min_evals": {"quick": 20000, "thorough": 50000},
-        "rule": ("the fault is a truncation point. For every file of the valid seed corpus (canned samples, reference-encoded movies of every codec with "
+        "rule": ("the fault is a truncation point. Subjects: 2000 (thorough 40 000) generated movies - plain with 1-3 interleaved tracks and the movie header "
+                 "first or last, fragmented as one stream, and media segment + initialisation segment - and every file of the valid seed corpus (canned samples, reference-encoded movies of every codec with "
                  "movie header first or last, 64-bit and size-0 mdat, metadata, emsg, edit lists; fragmented single streams; media segments opened against "
                  "their initialisation segment; muxer outputs) EVERY cut position 0..len is enumerated (files above 20 kB: every byte of the first and last "
                  "4 kB and every 97th byte in between in the quick tier, all bytes in thorough). The prefix is opened with its own length under a stream "
                  "op budget; if it opens, every sample that the complete file yields is read: the result must be an error or absence, or equal in bytes, "
                  "start time, duration and composition offset to the complete file's sample (the library's own answer on the complete file is the "
-                 "reference). Panic, budget overrun (hang) or a differing Ok(Some) is a violation. distinct_nontrivial = distinct (file, outcome class) "
-                 "with the prefix opened: all samples equal / some equal some failing / none readable."),
+                 "reference). Panic, budget overrun (hang) or a differing Ok(Some) is a violation. On an opened prefix the tracks are drained one after the other on ONE reader, so "
+                 "failing reads are followed by reads that must still succeed. distinct_nontrivial = distinct (file or generated kind, outcome class, "
+                 "eighth of the file the cut lies in) with the prefix opened: all samples equal / some equal some failing / none readable."),
         "assumptions": [
             "sample counts may shrink (fewer complete fragments): a missing sample (Ok(None)) or an error is accepted, only wrong data is not",
             "sync flags are not part of 'bytes and timing' (and depend on the fragment count for fragmented tracks) - DESIGN 8.3",
@@ -296,10 +314,10 @@ PROPS = {
         "death_is_violation": True,
         "exhaustive": {"quick": True, "thorough": True},
         "min_evals": {"quick": 10000, "thorough": 50000},
-        "rule": ("for each explored reader file (the valid seed corpus: 30 files quick, all ~50 thorough) a fault-free run counts the K stream calls "
+        "rule": ("for each explored reader subject (the valid seed corpus plus 800 / 16 000 generated plain and fragmented movies) a fault-free run counts the K stream calls "
                  "(read / seek) of the open call (read_header, or read_fragment_header for media segments) and of each read_sample call (first 6 samples "
                  "of every track); then the run is repeated once for EVERY k < K with a single injected error at call k. For each explored muxer history "
-                 "(30 quick / 200 thorough) the K write / seek calls from write_start to write_end are counted and every k < K is repeated with an "
+                 "(4000 quick / 60 000 thorough) the K write / seek calls from write_start to write_end are counted and every k < K is repeated with an "
                  "injected error and with a write that returns Ok(0). Oracle: the library call in progress returns Error::IoError - not Ok, not another "
                  "error, no panic - and earlier muxer calls returned what the fault-free run returned. Short transfers: each file is re-read with a "
                  "stream that transfers 1 byte per call, a random 1-7 bytes, and reports Interrupted on a third / half of the calls, and the complete "
@@ -317,13 +335,18 @@ PROPS = {
         "profiles": ["chk"],
         "death_is_violation": True,
         "min_evals": {"quick": 400, "thorough": 4000},
-        "rule": ("(a) for every file of the seed corpus, and for damaged variants of it (truncated media data, byte-level havoc) so that failing calls "
-                 "occur, one long-lived reader receives a random schedule of 200-2000 calls - read_sample, sample_offset, sample_count, track accessors, "
+        "rule": ("(a) for every file of the seed corpus, and for 39 (thorough 399) damaged variants of each (truncated media data, byte-level havoc) so that "
+                 "failing calls occur, one long-lived reader receives a schedule of 200-2000 calls - half drawn uniformly, half placed relative to the recent "
+                 "past (successor / predecessor / repetition of the last successful read, neighbours of the last failed read, repetition of the last call) - "
+                 "of read_sample, sample_offset, sample_count, track accessors, "
                  "movie accessors and metadata; track ids valid, 0 and max+1; sample ids 0, 1..N, N+1.., 2^32-1; with repetition - and every result is "
                  "compared with the result of the same single call on a fresh reader (samples by all fields and a hash of the bytes, errors by variant "
-                 "and message); (b) 400 (thorough 4000) random muxing histories are muxed twice in one process and once more in a separate process "
+                 "and message); (b) 400 000 (thorough 6 000 000) random muxing histories are muxed twice in one process and once more in a separate process "
                  "(different per-process hash seeds) and the outputs compared; (c) every subject is opened twice and ftyp / moov / moofs / emsgs and the "
-                 "per-track trak / trafs / moof offsets compared for equality. distinct_nontrivial = distinct (previous call kind and outcome -> next call "
+                 "per-track trak / trafs / moof offsets compared for equality; (d) the same media segment (corpus segments and 40 000 / 600 000 generated "
+                 "fragmented movies) is opened through parents with different histories - init reader, a segment reader, a segment reader of a segment "
+                 "reader, a segment reader that has been read from, a reader of a file with header and fragments - and structures and full transcripts "
+                 "must be equal. distinct_nontrivial = distinct (previous call kind and outcome -> next call "
                  "kind and outcome) transitions observed in the schedules plus distinct muxing history shapes."),
         "assumptions": [
             "the fresh-reader answer is the reference (metamorphic); correctness of the answer itself is C03/C09's business",
